@@ -175,6 +175,29 @@ func c07Situations() []gateSituation {
 			}
 			return p, nil
 		}},
+		// selected, deselected, re-selected and deselected again by ONE TCP write (two Deselect commits outstanding while
+		// the supervisor lags): the peer holds Deselect.rsp(0) for the last request, so the connection is deselected whatever
+		// the supervisor still has queued. Added after seeded change C07f-2; the state is judged by the sends, not by setup.
+		{"deselected-twice-pipelined", true, true, func(ep *Endpoint) (*ScriptPeer, error) {
+			p, err := established(ep)
+			if err != nil {
+				return p, err
+			}
+			waitSelectedReports(ep, 1, 2*time.Second)
+			if err := p.Send(mkFrame(0xFFFF, 0, 0, 0, 3, sysOf(0x7e000011), nil), mkFrame(0xFFFF, 0, 0, 0, 1, sysOf(0x7e000012), nil),
+				mkFrame(0xFFFF, 0, 0, 0, 3, sysOf(0x7e000013), nil)); err != nil {
+				return p, err
+			}
+			want := [][2]byte{{4, 0}, {2, 0}, {4, 0}}
+			for i, w := range want {
+				f, err := p.Recv(3 * time.Second)
+				if err != nil || f.SType() != w[0] || f.B3() != w[1] {
+					return p, fmt.Errorf("answer %d to Deselect/Select/Deselect in one write: expected SType %d status %d, got %s (%v)", i, w[0], w[1], f.Text(), err)
+				}
+			}
+			time.Sleep(30 * time.Millisecond) // let every queued supervisor event be consumed
+			return p, nil
+		}},
 		{"between-generations", true, true, func(ep *Endpoint) (*ScriptPeer, error) {
 			p, err := established(ep)
 			if err != nil {
@@ -291,7 +314,7 @@ func c07Gates(c *Ctx) {
 			c.Violate("correspondence", "gate-setup-failed", key+": "+r.setupErr, replay)
 			continue
 		}
-		if r.state == hsms.SelectedState {
+		if r.state == hsms.SelectedState && r.sit != "deselected-twice-pipelined" {
 			c.Violate("correspondence", "gate-setup-failed", key+": situation is Selected", replay)
 			continue
 		}
